@@ -206,3 +206,262 @@ Proof.
   - rewrite Habs. cbn [ll_base]. pose proof (base_le_committed rw l HI). lia.
   - eapply (committed_immutable_restore rw); eassumption.
 Qed.
+
+(* ================================================================== *)
+(* Part 2. The committed prefix is immutable: every function            *)
+(* ================================================================== *)
+Definition rcrel (r r' : raft) : Prop := crel (r_log r) (r_log r').
+
+Lemma rcrel_eq r r' : r_log r' = r_log r -> rcrel r r'.
+Proof. unfold rcrel. intros ->. apply crel_refl. Qed.
+
+Lemma rcrel_trans a b c : rcrel a b -> rcrel b c -> rcrel a c.
+Proof. apply crel_trans. Qed.
+
+Lemma become_follower_rcrel r t l r' : become_follower r t l = Ok r' -> rcrel r r'.
+Proof. intros H. apply become_follower_log in H. unfold rcrel. rewrite H. apply set_limit_crel. Qed.
+
+Lemma maybe_commit_rcrel rw r r' b : Raft.maybe_commit r = Ok (r', b) -> LI rw r -> rcrel r r'.
+Proof.
+  unfold Raft.maybe_commit. intros H HI. inv_bind H. destruct x as [l' b'].
+  pose proof (log_maybe_commit_crel rw _ _ _ _ _ Hx HI) as C.
+  destruct b'; [destruct (get_pr r (r_id r))|]; inversion H; subst; exact C.
+Qed.
+
+(* appending stamped entries after the last index *)
+Lemma append_entry_rel rw r es r' ok :
+  append_entry r es = Ok (r', ok) -> LI rw r -> room (N.of_nat (length es)) r ->
+  rcrel r r' /\ grows (r_log r) (r_log r').
+Proof.
+  intros H HI Hroom. destruct (append_entry_spec _ _ _ _ H) as (_ & _ & Hl).
+  destruct ok.
+  2:{ unfold rcrel. rewrite Hl. split; [apply crel_refl|apply grows_refl]. }
+  destruct Hl as (x & Hx & Hl). unfold rcrel. rewrite Hl. clear Hl H.
+  destruct es as [|e es].
+  - cbn in Hx. inversion Hx; subst. cbn [fst]. split; [apply crel_refl|apply grows_refl].
+  - destruct x as [l' li]. cbn [fst].
+    remember (stamp (e :: es) (r_term r) (last_index (r_log r) + 1)) as st eqn:Est.
+    pose proof (stamp_contig (e :: es) (r_term r) (last_index (r_log r) + 1)) as Hc.
+    pose proof (stamp_length (e :: es) (r_term r) (last_index (r_log r) + 1)) as Hlen.
+    rewrite <- Est in Hc, Hlen.
+    destruct st as [|e0 t0]; [cbn in Hlen; discriminate|].
+    assert (Hi0 : e_index e0 = last_index (r_log r) + 1) by (destruct Hc; assumption).
+    unfold room in Hroom.
+    destruct (log_append_rel rw _ _ _ _ _ Hx HI) as (A & _ & _ & C).
+    + rewrite Hi0. exact Hc.
+    + rewrite Hi0. pose proof (RepInv_persisted_le_last rw _ HI). lia.
+    + rewrite Hi0, Hlen. lia.
+    + split; [exact C|]. unfold grows. rewrite A.
+      destruct (ll_append_at_end (abs (r_log r)) e0 t0) as (B1 & B2 & B3).
+      { rewrite Hi0, (abs_last rw _ HI). reflexivity. }
+      splits; auto. eauto.
+Qed.
+
+Lemma become_leader_rel rw r r' :
+  become_leader r = Ok r' -> LI rw r -> room 1 r -> rcrel r r' /\ grows (r_log r) (r_log r').
+Proof.
+  unfold become_leader. intros H HI Hroom.
+  destruct (role_eqb (r_state r) Follower); [discriminate|].
+  inv_bind H. apply reset_log in Hx.
+  match type of H with (match ?g with _ => _ end) = _ => destruct g as [pr|] end; [|discriminate].
+  inv_bind H. destruct x0 as [r6 ok]. destruct ok; [|discriminate]. inversion H; subst. clear H.
+  destruct (append_entry_rel rw _ _ _ _ Hx0) as [A B].
+  - eapply LI_same; [|exact HI]. cbn. exact Hx.
+  - eapply room_same; [|exact Hroom]. cbn. rewrite Hx. reflexivity.
+  - unfold rcrel in *. cbn in A, B. rewrite Hx in A, B. split; assumption.
+Qed.
+
+Lemma poll_gen_rcrel rw rc r from v r' res :
+  (forall ra ra', rc ra = Ok ra' -> LI rw ra -> room 1 ra -> rcrel ra ra') ->
+  poll_gen rc r from v = Ok (r', res) -> LI rw r -> room 1 r -> rcrel r r'.
+Proof.
+  unfold poll_gen. intros Hrc H HI Hroom.
+  set (r0 := r <| r_prs := (r_prs r) <| t_votes := Quorum.record_vote (t_votes (r_prs r)) from v |> |>) in *.
+  assert (H0 : LI rw r0) by exact HI. assert (Hr0 : room 1 r0) by exact Hroom.
+  assert (C0 : rcrel r r0) by (apply rcrel_eq; reflexivity).
+  eapply rcrel_trans; [exact C0|]. clearbody r0.
+  destruct (Quorum.tracker_vote_result _ _ _).
+  - inversion H; subst. apply rcrel_eq; reflexivity.
+  - inv_bind H. inversion H; subst. eapply become_follower_rcrel; eassumption.
+  - destruct (role_eqb (r_state r0) PreCandidate).
+    + inv_bind H. inversion H; subst. eapply Hrc; eassumption.
+    + inv_bind H. inv_bind H. inversion H; subst.
+      eapply rcrel_trans; [exact (proj1 (become_leader_rel rw _ _ Hx H0 Hr0))|].
+      apply rcrel_eq. eapply bcast_append_log; exact Hx0.
+Qed.
+
+Lemma campaign_real_rcrel rw tr r r' :
+  campaign_real tr r = Ok r' -> LI rw r -> room 1 r -> rcrel r r'.
+Proof.
+  unfold campaign_real. intros H HI Hroom. inv_bind H. pose proof (become_candidate_log _ _ Hx) as El.
+  inv_bind H. destruct x0 as [r2 res].
+  assert (H1 : LI rw x) by (eapply LI_same; eassumption).
+  assert (R1 : room 1 x) by (eapply room_same; [|exact Hroom]; rewrite El; reflexivity).
+  assert (C2 : rcrel r r2).
+  { eapply rcrel_trans; [apply rcrel_eq; exact El|].
+    eapply poll_gen_rcrel; [|exact Hx0|exact H1|exact R1]. intros ra ra' Hp; discriminate. }
+  destruct res.
+  - inv_bind H. apply send_vote_requests_log in H. eapply rcrel_trans; [exact C2|apply rcrel_eq; exact H].
+  - inv_bind H. apply send_vote_requests_log in H. eapply rcrel_trans; [exact C2|apply rcrel_eq; exact H].
+  - inversion H; subst. exact C2.
+Qed.
+
+Lemma poll_rcrel rw r from v r' res :
+  poll r from v = Ok (r', res) -> LI rw r -> room 1 r -> rcrel r r'.
+Proof. unfold poll. apply poll_gen_rcrel. intros ra ra'. apply campaign_real_rcrel. Qed.
+
+Lemma campaign_pre_rcrel rw r r' : campaign_pre r = Ok r' -> LI rw r -> room 1 r -> rcrel r r'.
+Proof.
+  unfold campaign_pre. intros H HI Hroom. inv_bind H. pose proof (become_pre_candidate_log _ _ Hx) as El.
+  inv_bind H. destruct x0 as [r2 res].
+  assert (H1 : LI rw x) by (eapply LI_same; eassumption).
+  assert (R1 : room 1 x) by (eapply room_same; [|exact Hroom]; rewrite El; reflexivity).
+  assert (C2 : rcrel r r2).
+  { eapply rcrel_trans; [apply rcrel_eq; exact El|]. eapply poll_rcrel; eassumption. }
+  destruct res.
+  - inv_bind H. apply send_vote_requests_log in H. eapply rcrel_trans; [exact C2|apply rcrel_eq; exact H].
+  - inv_bind H. apply send_vote_requests_log in H. eapply rcrel_trans; [exact C2|apply rcrel_eq; exact H].
+  - inversion H; subst. exact C2.
+Qed.
+
+Lemma hup_rcrel rw r tl r' : hup r tl = Ok r' -> LI rw r -> room 1 r -> rcrel r r'.
+Proof.
+  intros H HI Hroom. apply hup_spec in H.
+  destruct H as [[_ ->]|[(_ & _ & ->)|[(_ & _ & _ & ->)|(_ & _ & _ & Hc)]]];
+    try (apply rcrel_eq; reflexivity).
+  unfold hup_campaign in Hc. destruct tl; [eapply campaign_real_rcrel; eassumption|].
+  destruct (r_pre_vote r); [eapply campaign_pre_rcrel|eapply campaign_real_rcrel]; eassumption.
+Qed.
+
+Lemma maybe_commit_by_vote_rcrel rw r m r' : maybe_commit_by_vote r m = Ok r' -> LI rw r -> rcrel r r'.
+Proof.
+  intros H HI. apply maybe_commit_by_vote_spec in H.
+  destruct H as [-> |(l' & b & _ & _ & _ & _ & Hmc & [-> |(_ & _ & _ & Hbf)])];
+    [apply rcrel_eq; reflexivity| |].
+  - exact (log_maybe_commit_crel rw _ _ _ _ _ Hmc HI).
+  - eapply rcrel_trans; [|eapply become_follower_rcrel; exact Hbf].
+    exact (log_maybe_commit_crel rw _ _ _ _ _ Hmc HI).
+Qed.
+
+Lemma handle_append_entries_rcrel rw r m r' :
+  handle_append_entries r m = Ok r' -> append_wf m -> LI rw r -> rcrel r r'.
+Proof.
+  unfold handle_append_entries. intros H (W1 & W4) HI.
+  destruct (negb (r_pending_request_snapshot r =? INVALID_INDEX)).
+  { apply rcrel_eq. eapply send_request_snapshot_log; exact H. }
+  destruct (m_index m <? committed (r_log r)).
+  { apply rcrel_eq. eapply send_log; exact H. }
+  inv_bind H. destruct x as [l' res].
+  pose proof (maybe_append_crel rw _ _ _ _ _ _ _ Hx HI W1 W4) as C.
+  destruct res as [[a b]|].
+  - apply send_log in H. unfold rcrel. rewrite H. exact C.
+  - inv_bind H. destruct x as [hi [ht|]]; [|discriminate].
+    apply send_log in H. unfold rcrel. rewrite H. exact C.
+Qed.
+
+Lemma handle_heartbeat_rcrel rw r m r' : handle_heartbeat r m = Ok r' -> LI rw r -> rcrel r r'.
+Proof.
+  unfold handle_heartbeat. intros H HI. inv_bind H.
+  pose proof (commit_to_crel rw _ _ _ Hx HI) as C.
+  match type of H with (if ?c then _ else _) = _ => destruct c end.
+  - apply send_request_snapshot_log in H. unfold rcrel. rewrite H. exact C.
+  - apply send_log in H. unfold rcrel. rewrite H. exact C.
+Qed.
+
+Lemma post_conf_change_rcrel rw r r' cs : post_conf_change r = Ok (r', cs) -> LI rw r -> rcrel r r'.
+Proof.
+  intros H HI. destruct (post_conf_change_pres rw _ _ _ H HI) as [_ S].
+  apply crel_same_su; [exact S|].
+  (* the commit index moves only through maybe_commit *)
+  unfold post_conf_change in H.
+  set (r0 := r <| r_promotable := voters_contains (conf_of r) (r_id r) |>) in *.
+  assert (E0 : r_log r0 = r_log r) by reflexivity. assert (H0 : LI rw r0) by exact HI. clearbody r0.
+  match type of H with (if ?c then _ else _) = _ => destruct c end; [inversion H; subst; rewrite E0; lia|].
+  match type of H with (if ?c then _ else _) = _ => destruct c end; [inversion H; subst; rewrite E0; lia|].
+  inv_bind H. destruct x as [r1 b]. pose proof (maybe_commit_rcrel rw _ _ _ Hx H0) as (C & _).
+  inv_bind H.
+  assert (E2 : r_log x = r_log r1).
+  { destruct b; [eapply bcast_append_log; exact Hx0|].
+    apply lf_log. revert Hx0. apply for_each_peer_lf. intros ra id ra' Hf.
+    destruct (get_pr ra id); [|discriminate]. inv_bind Hf. destruct x0 as [[rb pb] bb].
+    inversion Hf; subst. eapply lf_trans; [eapply maybe_send_append_lf; eassumption|apply put_pr_lf]. }
+  inv_bind H.
+  assert (E3 : r_log x0 = r_log x).
+  { destruct (ro_last_pending_request_ctx (r_read_only x)); [|inversion Hx1; reflexivity].
+    destruct (ro_recv_ack (r_read_only x) (r_id x) l) as [ro' acks].
+    destruct acks as [a|]; [|inversion Hx1; reflexivity].
+    match type of Hx1 with (if ?c then _ else _) = _ => destruct c end; [|inversion Hx1; reflexivity].
+    inv_bind Hx1. destruct x1 as [ro2 rss]. apply respond_reads_log in Hx1. rewrite Hx1. reflexivity. }
+  inversion H; subst.
+  assert (E4 : r_log (match r_lead_transferee x0 with
+                      | Some e => if negb (voters_contains (conf_of x0) e)
+                                  then x0 <| r_lead_transferee := None |> else x0
+                      | None => x0 end) = r_log x0).
+  { destruct (r_lead_transferee x0); [|reflexivity].
+    destruct (negb (voters_contains (conf_of x0) n)); reflexivity. }
+  rewrite E4, E3, E2. rewrite E0 in C. exact C.
+Qed.
+
+Lemma restore_rcrel rw r s r' b :
+  restore r s = Ok (r', b) -> s_index s < u64_max -> LI rw r -> rcrel r r'.
+Proof.
+  unfold restore. intros H Hb HI.
+  destruct (s_index s <? committed (r_log r)); [inversion H; subst; apply rcrel_eq; reflexivity|].
+  destruct (negb (role_eqb (r_state r) Follower)).
+  { inv_bind H. inversion H; subst. eapply become_follower_rcrel; eassumption. }
+  match type of H with (if ?c then _ else _) = _ => destruct c end;
+    [inversion H; subst; apply rcrel_eq; reflexivity|].
+  inv_bind H.
+  match type of H with (if ?c then _ else _) = _ => destruct c end.
+  { inv_bind H. inversion H; subst. exact (commit_to_crel rw _ _ _ Hx0 HI). }
+  inv_bind H.
+  destruct (log_restore_pres rw _ _ _ Hx0 HI Hb) as (A & _).
+  destruct (log_restore_crel rw _ _ _ Hx0 HI Hb) as (C & _).
+  destruct (ConfChange.restore empty_tracker (s_cs s)) as [[c' ids']|e]; [|discriminate].
+  inv_bind H. destruct x1 as [r1 new_cs].
+  match type of Hx1 with post_conf_change ?ra = _ => assert (Ha : LI rw ra) by exact A end.
+  pose proof (post_conf_change_rcrel rw _ _ _ Hx1 Ha) as C1.
+  match type of H with (if ?c then _ else _) = _ => destruct c end; [discriminate|].
+  destruct (get_pr r1 (r_id r1)) as [pr|]; [|discriminate].
+  destruct (next_idx pr =? 0); [discriminate|]. inversion H; subst.
+  unfold rcrel in *. cbn in *. eapply crel_trans; [exact C|exact C1].
+Qed.
+
+Lemma handle_snapshot_rcrel rw r m r' :
+  handle_snapshot r m = Ok r' -> s_index (m_snapshot m) < u64_max -> LI rw r -> rcrel r r'.
+Proof.
+  unfold handle_snapshot. intros H Hb HI. inv_bind H. destruct x as [r1 ok].
+  pose proof (restore_rcrel rw _ _ _ _ Hx Hb HI) as C.
+  destruct ok; apply send_log in H; unfold rcrel in *; rewrite H; exact C.
+Qed.
+
+Lemma handle_append_response_rcrel rw r m r' :
+  handle_append_response r m = Ok r' -> LI rw r -> rcrel r r'.
+Proof.
+  intros H HI. destruct (handle_append_response_pres rw _ _ _ H HI) as [_ _].
+  unfold handle_append_response in H. inv_bind H. clear Hx.
+  destruct (get_pr r (m_from m)) as [pr|]; [|inversion H; subst; apply rcrel_eq; reflexivity].
+  destruct (m_reject m).
+  { destruct (maybe_decr_to _ _ _ _) as [pr1 dec]. destruct dec.
+    - apply send_append_to_log in H. apply rcrel_eq. exact H.
+    - inversion H; subst. apply rcrel_eq; reflexivity. }
+  destruct (maybe_update _ _) as [pr1 upd]. destruct upd; cbn [negb] in H.
+  2:{ inversion H; subst. apply rcrel_eq; reflexivity. }
+  inv_bind H. clear Hx. inv_bind H. destruct x1 as [r1 cmt].
+  match type of Hx with Raft.maybe_commit ?ra = _ => assert (Ha : LI rw ra) by exact HI end.
+  pose proof (maybe_commit_rcrel rw _ _ _ Hx Ha) as C. inv_bind H. inv_bind H.
+  assert (E2 : r_log x1 = r_log r1).
+  { destruct cmt.
+    - destruct (should_bcast_commit r1); [eapply bcast_append_log; eassumption|].
+      inversion Hx0; reflexivity.
+    - destruct (is_paused _); [eapply send_append_to_log; eassumption|].
+      inversion Hx0; reflexivity. }
+  apply send_append_aggressively_log in Hx1.
+  assert (E4 : r_log r' = r_log x2).
+  { destruct (r_lead_transferee x2); [|inversion H; reflexivity].
+    destruct (n =? m_from m); [|inversion H; reflexivity].
+    destruct (get_pr x2 (m_from m)); [|discriminate].
+    destruct (matched p =? last_index (r_log x2)); [eapply send_timeout_now_log; exact H|].
+    inversion H; reflexivity. }
+  unfold rcrel in *. rewrite E4, Hx1, E2. exact C.
+Qed.
